@@ -1,10 +1,16 @@
 ------------------------------ MODULE Trace_Api ------------------------------
-EXTENDS Api, TraceLib, Json, IOUtils
+EXTENDS Api, Units, TraceLib, Json, IOUtils
 Traces == ndJsonDeserialize(IOEnv.TRACE_FILE)
 VARIABLE tid
-Fails(e) == Failing({
+\* sensor reading event: call = "sensor_value", kind, si (the target's live attribute, SI), unit ("" = no unit argument: the quantity
+\* itself is returned and re-read in SI), out (the number returned / the returned quantity in SI), isnum (a bare number came back)
+SensorFails(e) == Failing({
+   <<"SensorReturnsNumberIffUnitGiven_" \o e.sensor, e.isnum = (e.unit # "")>>,
+   <<"SensorValueInUnit_" \o e.sensor, RIsNum(e.out) /\ LET x == IF e.unit = "" THEN e.si ELSE Conv(e.si, e.kind, SIUnit(e.kind), e.unit) IN CloseS(e.out, x, "1e-12", RAbs(x))>> })
+CallFails(e) == Failing({
    <<"Api_" \o e.call \o "_" \o e.arg \o "_" \o e.out, e.out \in Expected(e.call, e.arg)>>,
    <<"ApiRefusalChangedState_" \o e.call \o "_" \o e.arg, (e.out # "ok" /\ ValidatesFirst(e.call, e.arg)) => ~e.state_changed>> })
+Fails(e) == IF e.call = "sensor_value" THEN SensorFails(e) ELSE CallFails(e)
 Init == tid \in 1..Len(Traces)
 Next == tid > 0 /\ Verdict(Traces[tid].id, Fails(Traces[tid])) /\ tid' = 0
 =============================================================================
